@@ -321,6 +321,20 @@ def oracle(rep, rnd, tier):
             if got[0] != "val" or got[1] != want:
                 rep.violation("input", "%s gives %s, calendar says %s" % (src, got, want), check="program",
                               program=src, got=list(got), want=want)
+    # (c2) the day number of a date-time is the day number of its day, at every time of day - also in the last seconds before midnight
+    for (y, m, d) in [(1900, 1, 1), (1999, 12, 31), (2000, 2, 29), (2024, 6, 15), (9999, 12, 30), (9999, 12, 31), (2100, 2, 28), (1970, 1, 1)] + \
+            [(rnd.randint(1900, 9999), rnd.randint(1, 12), rnd.randint(1, 28)) for _ in range(20 if tier != "thorough" else 300)]:
+        daynum = datetime.date(y, m, d).toordinal() - BASE
+        for (hh, mm, ss) in [(0, 0, 0), (0, 0, 1), (11, 59, 59), (12, 0, 0), (23, 59, 50), (23, 59, 55), (23, 59, 56), (23, 59, 57), (23, 59, 58), (23, 59, 59)]:
+            ts = "%04d%02d%02d%02d%02d%02d" % (y, m, d, hh, mm, ss)
+            for src, want in [("int(date('%s'))" % ts, "(i %d)" % daynum),
+                              ("string(date(int(date('%s'))))" % ts, "(s" + "".join(" %d" % ord(c) for c in ts[:8] + "000000") + ")"),
+                              ("int(date('%s')) == int(decimal(date('%s')))" % (ts, ts), "(b 1)"),
+                              ("string(date(decimal(date('%s'))))" % ts, "(s" + "".join(" %d" % ord(c) for c in ts) + ")")]:
+                got = interp_mod.run_src(I, src)
+                rep.count()
+                if got[0] != "val" or got[1] != want:
+                    rep.violation("input", "%s gives %s, calendar says %s" % (src, got, want), check="program", program=src, got=list(got), want=want)
     # (d) the same laws for dates with a time of day, concentrated where the day number crosses a
     #     power of two (the float spacing changes there) and on large offsets
     nt2 = 2500 if tier != "thorough" else 40000
